@@ -330,6 +330,32 @@ fn gen_c02(lvl: u8) -> Vec<Scenario> {
     let mut a = ActorSpec::plain(1);
     a.on_start = gated(Outcome::Ok);
     v.push(scn("c02-erased".into(), vec![a], vec![p1, p2], &[]));
+    // a stop() whose caller gave up while it waited for a slot; later a stop() that returns Ok, and a tell after it
+    for cap in [1usize, 2] {
+        for erased in [false, true] {
+            let mut ids = Ids(0);
+            let a = ActorSpec::plain(cap);
+            let mut slow = MsgSpec::m1(ids.next()).steps(vec![Step::Sleep(20)]);
+            slow.entry_yield = false;
+            let mut tells = vec![send(SendKind::Tell, 0, slow)];
+            for _ in 0..cap {
+                tells.push(send(SendKind::Tell, 0, MsgSpec::quick(ids.next())));
+            }
+            let c0 = Program { slots: vec![(0, 0)], steps: tells, auto_yield: false, free: false };
+            let mut later = vec![Step::Sleep(1), Step::StopCancel { slot: 0, ms: 10 }, Step::Sleep(30)];
+            if erased {
+                later.push(Step::Erase { from: 0, to: 1, kind: EraseKind::Ctl, owned: false });
+                later.push(Step::Fuse);
+                later.push(Step::Stop(1));
+            } else {
+                later.push(Step::Stop(0));
+            }
+            later.push(send(SendKind::Tell, 0, MsgSpec::m1(ids.next())));
+            later.push(send(SendKind::Ask, 0, MsgSpec::m1(ids.next())));
+            let c1 = Program::new(vec![(0, 0)], later);
+            v.push(scn(format!("c02-stop-after-abandoned-stop-cap{cap}-erased{erased}"), vec![a], vec![c0, c1], &[]));
+        }
+    }
     with_fused(v)
 }
 
@@ -1119,6 +1145,35 @@ fn gen_c09(lvl: u8) -> Vec<Scenario> {
         let c0 = Program::new(vec![(0, 0)], steps);
         n += 1;
         out.push(scn(format!("c09-{n}-default-capacity"), vec![a], vec![c0], &["quiet", "occ"]));
+    }
+    // an actor that fills its own mailbox: the tell that finds no slot waits (and, bounded, times out) like anybody's
+    for cap in [1usize, 2] {
+        for from_run in [false, true] {
+            let mut ids = Ids(0);
+            let mut a = ActorSpec::plain(cap);
+            let mut burst: Vec<Step> = Vec::new();
+            for _ in 0..cap {
+                burst.push(send(SendKind::Tell, SELF_SLOT, MsgSpec::quick(ids.next())));
+                burst.push(Step::Fuse);
+            }
+            let c0;
+            if from_run {
+                // the tell that finds the mailbox full waits inside on_run; the select! then serves the mailbox and
+                // cancels it, the next invocation gives up idling
+                burst.push(send(SendKind::Tell, SELF_SLOT, MsgSpec::quick(ids.next())));
+                a.on_run = vec![
+                    HookSpec { entry_yield: false, steps: burst, out: Outcome::OkTrue, free: false },
+                    HookSpec { entry_yield: false, steps: vec![Step::Yield], out: Outcome::OkFalse, free: false },
+                ];
+                c0 = Program::new(vec![(0, 0)], vec![Step::Sleep(5), send(SendKind::Ask, 0, MsgSpec::m1(ids.next()))]);
+            } else {
+                burst.push(send(SendKind::TellTO(10), SELF_SLOT, MsgSpec::quick(ids.next())));
+                let fill = MsgSpec::m1(ids.next()).steps(burst);
+                c0 = Program::new(vec![(0, 0)], vec![send(SendKind::Tell, 0, fill), Step::Sleep(20), send(SendKind::Ask, 0, MsgSpec::m1(ids.next()))]);
+            }
+            n += 1;
+            out.push(scn(format!("c09-{n}-fills-own-mailbox-cap{cap}-fromrun{from_run}"), vec![a], vec![c0], &["quiet"]));
+        }
     }
     // capacity 0 is rejected
     {
